@@ -308,34 +308,7 @@ package rpc
 
 // Conn methods used by the Transport wrappers: assumed contracts for now (ghost call counter gg_ncall, last connection
 // used gg_lastconn); their bodies are verified under Part 5 where present.
-//@ func (*Conn).Call
-//@   trusted
-//@   requires conn != nil
-//@   ghostset gg_ncall() = gg_ncall() + 1
-//@   ghostset gg_lastconn() = ref(conn)
-//@ func (*Conn).CallWithContext
-//@   trusted
-//@   requires conn != nil
-//@   ghostset gg_ncall() = gg_ncall() + 1
-//@   ghostset gg_lastconn() = ref(conn)
-//@ func (*Conn).Go
-//@   trusted
-//@   requires conn != nil
-//@   ensures result != nil
-//@   ghostset gg_ncall() = gg_ncall() + 1
-//@   ghostset gg_lastconn() = ref(conn)
-//@ func (*Conn).RoundTrip
-//@   trusted
-//@   requires conn != nil && call != nil
-//@   ensures result == call
-//@   ghostset gg_ncall() = gg_ncall() + 1
-//@   ghostset gg_lastconn() = ref(conn)
 //@ func (*Conn).NewStream
-//@   trusted
-//@   requires conn != nil
-//@   ghostset gg_ncall() = gg_ncall() + 1
-//@   ghostset gg_lastconn() = ref(conn)
-//@ func (*Conn).Ping
 //@   trusted
 //@   requires conn != nil
 //@   ghostset gg_ncall() = gg_ncall() + 1
@@ -563,14 +536,17 @@ package rpc
 //@ lockinv Conn.mutex
 //@   property C01 C02 C03 C20
 //@   guards Conn.seq, Conn.pending, Conn.streams, Conn.closing, Conn.shutdown, Map<map[uint64]*Call>
-//@   tokens tok with gv_slot gb_acked
+//@   tokens tok with gv_slot
 //@   invariant self.pending != nil && self.streams != nil
 //@   invariant forallkey(s, self.pending, self.pending[s] != nil && self.pending[s].upgrade != nil)
 //@   invariant forallkey(s, self.streams, self.streams[s] != nil)
-//@   invariant [C02] implies(!self.shutdown, forallkey(s, self.pending, gf_tok(self.pending[s]) == 1 || gb_acked(self.pending[s])))
-//@   invariant [C02] implies(self.shutdown, forallkey(s, self.pending, gf_tok(self.pending[s]) != 1))
-//@   invariant [C02] forallkey(s, self.pending, implies(gf_tok(self.pending[s]) == 1, gv_slot(self.pending[s]) == s))
-//@   invariant [C02] forallkey(s, self.pending, implies(gf_tok(self.pending[s]) == 2, gb_acked(self.pending[s])))
+//@   invariant [C02] implies(!self.shutdown, forallkey(s, self.pending, gf_tok(self.pending[s]) == 1 || gb_internal(self.pending[s])))
+//@   invariant [C02] implies(self.shutdown, forallkey(s, self.pending, gf_tok(self.pending[s]) != 1 || gb_internal(self.pending[s])))
+//@   invariant [C02] forallkey(s, self.pending, implies(gf_tok(self.pending[s]) == 1 && !gb_internal(self.pending[s]), gv_slot(self.pending[s]) == s))
+//@   invariant [C02] forallkey(s, self.pending, implies(gf_tok(self.pending[s]) == 2, gb_internal(self.pending[s])))
+//@   invariant [C09] forallkey(s, self.pending, gb_internal(self.pending[s]) == (self.pending[s].upgrade.Stream == 1 || self.pending[s].upgrade.Stream == 2))
+//@   invariant [C09] forallkey(s, self.pending, implies(gb_internal(self.pending[s]), self.pending[s].upgrade.NoResponse == 1))
+//@   invariant [C03] implies(self.shutdown, gb_swept(self))
 //@   assumed self.seq < 1<<62
 
 //@ iface ClientCodec.Close
@@ -593,9 +569,13 @@ package rpc
 //@ field ctxPool: pool *Context
 //@ field callPool: pool *Call
 //@ field donePool: pool chan *Call
-//@ field upgradePool: pool *upgrade
+//@ pure upgradeZero(u *upgrade) bool = u.NoRequest == 0 && u.NoResponse == 0 && u.Heartbeat == 0 && u.Stream == 0
+//@ field upgradePool: pool *upgrade inv upgradeZero
 //@ field upgradeBufferPool: pool []byte
+//@ field eventPool: pool *event
 //@ tokentable Conn.pending tok slot
+//@ field Call.Error: owned tok
+//@ field Call.Value: owned tok
 
 //@ iface ClientCodec.WriteRequest
 //@   params codec, ctx, param
@@ -610,14 +590,15 @@ package rpc
 //@   ghostset gg_dones() = gg_dones() + 1
 
 //@ pure sendable(conn *Conn, call *Call) bool = conn != nil && call != nil && call.upgrade != nil && !isnil(conn.codec) &&
-//@      legalUpgrade(call.upgrade) && implies(call.upgrade.Stream > 0, call.stream != nil) && (gf_tok(call) == 2 || gb_internal(call)) && !gb_acked(call) &&
-//@      gb_internal(call) == (call.upgrade.Stream == 2)
+//@      legalUpgrade(call.upgrade) && implies(call.upgrade.Stream > 0, call.stream != nil) && (gf_tok(call) == 2 || gb_internal(call)) &&
+//@      gb_internal(call) == (call.upgrade.Stream == 1 || call.upgrade.Stream == 2) && implies(gb_internal(call), call.upgrade.NoResponse == 1)
 
 //@ func (*Conn).send
 //@   property C01 C02 C03 C06 C09
 //@   requires sendable(conn, call)
 //@   ensures [C02] gf_tok(call) != 2 || gb_internal(call)
 //@   ensures [C04] gg_wreq() <= old(gg_wreq()) + 1
+//@   ensures implies(!gb_internal(call), gg_putcall() == old(gg_putcall()))
 //@   atcall (*Call).done#1: [C03] call.Error == ErrShutdown && gg_wreq() == old(gg_wreq())
 //@   atcall ClientCodec.WriteRequest#1: [C01] arg0.Seq == seq && arg0.upgrade == call.upgrade && implies(call.upgrade.Stream == 2 || call.upgrade.Stream == 3, seq == call.stream.seq)
 //@   atcall (*Call).done#2: [C06] !has(conn.pending, seq) && call.Error != nil
@@ -626,8 +607,144 @@ package rpc
 //@   property C02 C05
 //@   requires sendable(conn, call)
 //@   ensures [C02] gf_tok(call) != 2 || gb_internal(call)
+//@   ensures implies(!gb_internal(call), gg_putcall() == old(gg_putcall()))
 //@ func (*Conn).write$1
 //@   property C02 C05
 //@   requires sendable(conn, call)
 //@   consumes gf_tok(call)
 //@   ensures [C02] gf_tok(call) != 2 || gb_internal(call)
+
+//@ iface ClientCodec.ReadResponseHeader
+//@   params codec, ctx
+//@   requires ctx != nil
+//@ iface ClientCodec.ReadResponseBody
+//@   params codec, body, x
+//@   ghostset gg_rbody() = gg_rbody() + 1
+
+//@ func (*Conn).finishCall
+//@   property C01 C02 C11 C19
+//@   requires conn != nil && ctx != nil && call != nil && !isnil(conn.codec) && conn.bufferPool != nil
+//@   requires gf_tok(call) == 2 && !gb_internal(call)
+//@   ensures [C02] gf_tok(call) == 0 && gg_dones() == old(gg_dones()) + 1
+//@   ensures [C01] gg_rbody() == old(gg_rbody()) + 1
+//@   ensures [C19] implies(len(old(ctx.value)) > 0 && cap(old(call.Buffer)) >= len(old(ctx.value)), arr(call.Value) == arr(old(call.Buffer)) && len(call.Value) == len(old(ctx.value)))
+//@   ensures [C01] implies(len(old(ctx.value)) > 0, len(call.Value) == len(old(ctx.value)))
+
+//@ pure readable(conn *Conn, ctx *Context) bool = conn != nil && ctx != nil && !isnil(conn.codec) && conn.bufferPool != nil &&
+//@      implies(!conn.directIO, !isnil(conn.readStream))
+
+//@ func (*Conn).read
+//@   property C01 C02 C05 C06 C09 C19
+//@   requires readable(conn, ctx)
+//@   atcall (*Call).done#1: [C05] isnil(conn.readSched)
+//@ func (*Conn).read$1
+//@   requires conn != nil && ctx != nil && call != nil && conn.bufferPool != nil && gb_internal(call) && call.upgrade != nil
+//@ func (*Conn).read$2
+//@   property C02 C05
+//@   requires conn != nil && ctx != nil && call != nil && !isnil(conn.codec) && conn.bufferPool != nil
+//@   requires gf_tok(call) == 2 && !gb_internal(call)
+//@   consumes gf_tok(call)
+//@ func (*Conn).read$3
+//@   property C02 C05
+//@   requires conn != nil && ctx != nil && call != nil && !isnil(conn.codec) && conn.bufferPool != nil
+//@   requires gf_tok(call) == 2 && !gb_internal(call)
+//@   consumes gf_tok(call)
+
+//@ func (*Conn).recv$1
+//@   property C02
+//@   requires readable(conn, ctx)
+
+//@ iface ClientCodec.Messages
+//@   params codec
+//@   ensures !isnil(result)
+
+//@ pure sweptTok(conn *Conn) bool = forallkey(s, conn.pending, conn.pending[s] != nil && implies(gf_tok(conn.pending[s]) == 2, gb_internal(conn.pending[s])))
+
+//@ pure unswept(c *Call, k uint64) bool = (gf_tok(c) == 1 || gb_internal(c)) && implies(gf_tok(c) == 1 && !gb_internal(c), gv_slot(c) == k)
+
+//@ func (*Conn).recv
+//@   property C02 C03 C20
+//@   requires conn != nil && !isnil(conn.codec) && conn.bufferPool != nil && implies(!conn.directIO, !isnil(conn.readStream))
+//@   requires !gb_swept(conn)
+//@   loop 1: invariant !gb_swept(conn)
+//@   loop 2: invariant conn.shutdown && gb_swept(conn) && conn.pending != nil && conn.streams != nil && sweptTok(conn) && forall(i, 0, rangeidx(), gf_tok(conn.pending[rangekey(i)]) != 1 || gb_internal(conn.pending[rangekey(i)])) && forall(i, rangeidx(), rangen(), unswept(conn.pending[rangekey(i)], rangekey(i)))
+//@   loop 3: invariant conn.shutdown && gb_swept(conn) && conn.pending != nil && conn.streams != nil && sweptTok(conn) && forallkey(s, conn.pending, gf_tok(conn.pending[s]) != 1 || gb_internal(conn.pending[s]))
+//@   ghostat store Conn.shutdown#1: gb_swept(arg0) = true
+//@   ghostat store Call.Error#1: gf_tok(arg0) = ite(gf_tok(arg0) == 1 && !gb_internal(arg0), 2, gf_tok(arg0))
+//@   atcall (*Call).done#1: [C03] holds(Conn_mutex) && conn.shutdown && call.Error != nil
+
+//@ func getUpgrade
+//@   ensures result != nil && upgradeZero(result)
+//@ func putUpgrade
+//@   requires u != nil
+//@ func GetCall
+//@   property C02
+//@   ensures result != nil && result.Done != nil
+//@ func PutCall
+//@   property C02 C19
+//@   requires call != nil
+//@   ghostset gg_putcall() = gg_putcall() + 1
+//@ func checkDone
+//@   requires done == nil || cap(done) > 0
+//@   ensures result != nil && implies(done != nil, result == done)
+
+//@ pure usable(conn *Conn) bool = conn != nil && !isnil(conn.codec)
+
+//@ func (*Conn).RoundTrip
+//@   property C02
+//@   ghostset gg_ncall() = gg_ncall() + 1
+//@   ghostset gg_lastconn() = ref(conn)
+//@   requires usable(conn) && call != nil && gf_tok(call) == 2 && !gb_internal(call) && (call.Done == nil || cap(call.Done) > 0)
+//@   ensures [C02] result == call && gf_tok(call) != 2
+
+//@ func (*Conn).Go
+//@   property C02
+//@   ghostset gg_ncall() = gg_ncall() + 1
+//@   ghostset gg_lastconn() = ref(conn)
+//@   requires usable(conn) && (done == nil || cap(done) > 0)
+//@   ghostat (*Conn).write#1: gf_tok(arg1) = 2
+//@   ghostat (*Conn).write#1: gb_internal(arg1) = false
+//@   ensures [C02] result != nil && gf_tok(result) != 2
+
+//@ func (*Conn).Call
+//@   property C02
+//@   ghostset gg_ncall() = gg_ncall() + 1
+//@   ghostset gg_lastconn() = ref(conn)
+//@   requires usable(conn)
+//@   ghostat (*Conn).write#1: gf_tok(arg1) = 2
+//@   ghostat (*Conn).write#1: gb_internal(arg1) = false
+//@   ensures [C02] gg_putcall() == old(gg_putcall()) + 1
+
+//@ iface context.Context.Err
+//@   params c
+//@   ghostset gg_ctxerr() = gg_ctxerr() + 1
+//@   ghostset gg_lastErr() = ref(result)
+//@ iface context.Context.Done
+//@   params c
+//@ iface context.Context.Value
+//@   params c, key
+
+//@ func (*Conn).CallWithContext
+//@   property C02 C19
+//@   ghostset gg_ncall() = gg_ncall() + 1
+//@   ghostset gg_lastconn() = ref(conn)
+//@   requires usable(conn) && !isnil(ctx)
+//@   ghostat (*Conn).write#1: gf_tok(arg1) = 2
+//@   ghostat (*Conn).write#1: gb_internal(arg1) = false
+//@   ensures [C19] (gg_putcall() == old(gg_putcall()) + 1 && gg_ctxerr() == old(gg_ctxerr())) || (gg_putcall() == old(gg_putcall()) && gg_ctxerr() == old(gg_ctxerr()) + 1 && ref(result) == gg_lastErr())
+
+//@ func (*Conn).Ping
+//@   property C02
+//@   ghostset gg_ncall() = gg_ncall() + 1
+//@   ghostset gg_lastconn() = ref(conn)
+//@   requires usable(conn)
+//@   ghostat (*Conn).write#1: gf_tok(arg1) = 2
+//@   ghostat (*Conn).write#1: gb_internal(arg1) = false
+//@   ensures [C02] gg_putcall() == old(gg_putcall()) + 1
+
+//@ func (*Conn).closeStream
+//@   property C02 C09
+//@   requires usable(conn) && s != nil
+//@   ghostat (*Conn).write#1: gf_tok(arg1) = 2
+//@   ghostat (*Conn).write#1: gb_internal(arg1) = false
+//@   ensures [C02] gg_putcall() == old(gg_putcall()) + 1
